@@ -149,6 +149,13 @@ def run(ctx):
                                         rep(f"flipping the bonds on the path changed the fluxes of {sorted(changed)}, expected exactly the ends {sorted(want)}"); break
                         ctx.case((tag,), nontrivial=a != b, sample=dict(case=tag, length=len(edges)))
                         queries.append((a, b, early, [int(x) for x in nodes], [int(x) for x in edges]))
+                # the hypothesis CostLaws.pos of the forward-pass theorem, monitored: every step between adjacent nodes has a positive length that
+                # is not absorbed when added to a cost of the size of the whole lattice
+                steps = [float(metric(pos(i), pos(q))) for i in range(n) for q, _ in adj[i]]
+                if steps and not (min(steps) > 0 and (2.0 * n) + min(steps) > 2.0 * n):
+                    ctx.count("cost_law_pos_not_met_nongeneric_geometry")
+                else:
+                    ctx.count("cost_law_pos_monitored_ok")
                 if n <= 130 and queries:
                     H = [[fbits(metric(pos(i), pos(j))) for j in range(n)] for i in range(n)]
                     reqs.append(dict(op="astar", adj=[[[q, e] for q, e in row] for row in adj], h=H,
@@ -194,8 +201,9 @@ def run(ctx):
                 brk(f"the model's path {a}->{b} fails the validity test"); break
         else:
             ctx.count("paths_reproduced_exactly_by_model", len(queries))
-    ctx.assumptions += ["the forward-pass invariant (ParentOK) is a hypothesis of the backward-pass theorem; on every run the model's returned path is checked by the executable "
-                        "validity test that is proved sound (the inductive proof of the forward invariant is not done)",
+    ctx.assumptions += ["path_valid is proved for every cost type obeying CostLaws (< a strict order, c < c + h(a,b)); for IEEE doubles these are assumptions about the hardware "
+                        "arithmetic, the positivity part is monitored on every lattice (counter cost_law_pos_*); the model's returned path is additionally checked by the executable "
+                        "validity test that is proved sound",
                         "IEEE double addition/comparison in the Lean driver equals numpy's (same hardware arithmetic); distances are computed by koala's own metric functions",
                         "optimality without early stopping (consistent heuristic) and the iteration budget maxits >= n_edges are decided on the implementation, not proved"]
 
